@@ -37,6 +37,7 @@ func main() {
 			"'the connection's TLS state attached' is checked as req.TLS != nil with the version, cipher suite and server name the client negotiated and HandshakeComplete",
 			"'handed the decrypted connection' is decided behaviourally: bytes the hijacker writes on the net.Conn returned by Session.Hijack must arrive as plaintext inside the client's TLS session, and the client's reply must be readable from that net.Conn",
 			"a CONNECT sent inside an already decrypted connection counts as a request decrypted from the tunnel (scheme https, secure session, TLS state); cleartext requests that follow a handshake the proxy refused count as cleartext traffic inside the tunnel",
+			"a tunnel the client starts with a correct TLS handshake (in one or two pieces) must be MITM'd: a handshake the proxy does not complete is reported under tunnel-handshake (certificate verification errors are left to C06 and stay inconclusive)",
 			"exchanges slower than 10 s at the origin are only generated in the thorough tier (wall-clock lower bound; the 60 s harness watchdog is inconclusive)",
 			"the client verifies the forged certificate against the CA (host names are well-formed; certificate issuance is C06's subject)",
 		},
@@ -197,6 +198,30 @@ func genCase(rng *rand.Rand, stream string, idx int, race bool) c05Case {
 		n = 4
 	}
 	tag := strings.NewReplacer("-", "", "mitm", "m", "race", "r", "c05", "").Replace(stream)
+	if idx == 1 && !slow {
+		// fixed part of every batch (not left to a lucky draw): a hijack of a
+		// pipelined request on either side, and a tunnel on a reused connection
+		c.Transport, c.LatencyMs, c.Bitrate = "pipe", 0, 0
+		mk := func(ci int, pre []string, hij string, pipe bool, nreq int) conn5 {
+			cs := conn5{T: fmt.Sprintf("%sk%dc%dt", tag, idx, ci), Inner: "tls", Pre: pre}
+			th := modx.Host(cs.T)
+			for i := 0; i < nreq; i++ {
+				q := req5{X: fmt.Sprintf("%sk%dc%dr%d", tag, idx, ci, i), Form: "origin", Proto: "HTTP/1.1", Host: th}
+				q.Target = "/" + q.X
+				q.Pipe = pipe && i > 0
+				if i == nreq-1 {
+					q.Hij = hij
+				}
+				cs.Reqs = append(cs.Reqs, q)
+			}
+			return cs
+		}
+		c.Conns = []conn5{mk(0, nil, "req", true, 2), mk(1, nil, "res", true, 3), mk(2, nil, "", true, 3)}
+		if c.Listener != "tls" {
+			c.Conns = append(c.Conns, mk(3, []string{"get"}, "", false, 3), mk(4, []string{"connect-clear"}, "res", false, 3))
+		}
+		return c
+	}
 	for ci := 0; ci < n; ci++ {
 		cs := conn5{T: fmt.Sprintf("%sk%dc%dt", tag, idx, ci), Inner: "tls"}
 		if c.Listener != "tls" {
